@@ -15,6 +15,8 @@ const (
 	dataSlots   = 4
 	recSlotBase = 0x10
 	recSlots    = 8
+	outSlotBase = 0x20 // pairs (first output word, RETURNDATASIZE+1) of literal calls with an output record
+	outPairs    = 2
 )
 
 var (
@@ -22,6 +24,7 @@ var (
 	eoaFunded  = mkAddr(0xc1, 0x6e, 0x01)
 	eoaAbsentA = mkAddr(0xc1, 0x6e, 0x02)
 	eoaAbsentB = mkAddr(0xc1, 0x6e, 0x03)
+	eoaBalOnly = mkAddr(0xc1, 0x6e, 0x04) // code-less, nonce 0, holds value
 	zeroAddr   = model.C16Addr{}
 )
 
@@ -40,6 +43,11 @@ type c2ref struct {
 	salt    uint64
 }
 
+type sdRef struct {
+	host   int
+	doomed bool // the node lies in a subtree that fails
+}
+
 type gen struct {
 	r        *rand.Rand
 	p        *model.C16Program
@@ -48,6 +56,9 @@ type gen struct {
 	plains   []model.C16Addr
 	create2s []c2ref
 	plainInv []*model.C16Inv // plain invocations placed in host sections (may be retargeted to CREATE2 addresses)
+	sdHosts  []sdRef         // hosts on whose account a node of the current transaction ends in SELFDESTRUCT
+	forceSD  bool            // the next node ends in SELFDESTRUCT
+	forceOK  bool            // the next node ends in STOP
 }
 
 func pick(r *rand.Rand, w ...int) int {
@@ -67,13 +78,17 @@ func pick(r *rand.Rand, w ...int) int {
 
 func (g *gen) anyAddr(self *model.C16Addr) model.C16Addr {
 	r := g.r
-	switch pick(r, 4, 3, 1, 2) {
+	switch pick(r, 8, 6, 2, 4, 1, 1) {
 	case 0:
 		return g.plains[r.Intn(3)] // funded EOA or one of two absent accounts
 	case 1:
 		return g.p.Hosts[r.Intn(len(g.p.Hosts))]
 	case 2:
 		return g.p.Origin
+	case 4:
+		return model.C16PrecompileAddr(1 + r.Intn(8))
+	case 5:
+		return eoaBalOnly
 	default:
 		if self != nil {
 			return *self
@@ -152,6 +167,7 @@ func (g *gen) effects(f *model.C16Frame, n int, seq *int) {
 func (g *gen) frame(depth int, host int, ctx *model.C16Addr, static, doomed, isCreate, noSelfDoom, root bool) *model.C16Frame {
 	r := g.r
 	f := &model.C16Frame{ID: g.nextID, Host: host}
+	sdBefore := len(g.sdHosts) // nodes generated earlier: ancestors and what ran before this frame
 	g.nextID++
 	g.nodes++
 	// terminator
@@ -167,11 +183,38 @@ func (g *gen) frame(depth int, host int, ctx *model.C16Addr, static, doomed, isC
 	default:
 		f.Term = pick(r, 30, 22, 14, 6, 4, 2, 2, sd)
 	}
+	if g.forceSD && !static {
+		f.Term = model.C16TSelfdestruct
+	}
+	if g.forceOK {
+		f.Term = model.C16TStop
+	}
+	g.forceSD, g.forceOK = false, false
 	if f.Term == model.C16TSelfdestruct {
 		f.Benef = g.anyAddr(ctx)
+		if len(g.sdHosts) > 0 && r.Intn(5) == 0 {
+			// the heir is an account that (probably) self-destructed earlier in the transaction: it takes
+			// the value along when it is removed
+			f.Benef = g.p.Hosts[g.sdHosts[r.Intn(len(g.sdHosts))].host]
+		}
+		if ctx != nil && !static {
+			for i, h := range g.p.Hosts {
+				if h == *ctx {
+					g.sdHosts = append(g.sdHosts, sdRef{i, doomed})
+				}
+			}
+		}
 	}
 	if isCreate && f.Term == model.C16TReturn && r.Intn(5) > 0 {
 		f.Stub = &model.C16Stub{Kind: pick(r, 35, 35, 15, 15), Slot: uint64(r.Intn(dataSlots)), Val: 0x900000 + uint64(f.ID), Benef: g.anyAddr(nil)}
+		if r.Intn(15) == 0 {
+			// returned code at / beyond the EIP-170 limit. (Too large = the frame fails with all its gas:
+			// not below a CREATE of a frame whose outcome the reference predicts, see noSelfDoom)
+			f.Stub.Kind, f.Stub.Size = model.C16StubZeros, model.C16MaxCodeSize
+			if !noSelfDoom && r.Intn(3) > 0 {
+				f.Stub.Size += []int{1, 2, 1000}[r.Intn(3)]
+			}
+		}
 	}
 	f.Doomed = doomed || model.C16TermFails(f.Term)
 
@@ -193,7 +236,8 @@ func (g *gen) frame(depth int, host int, ctx *model.C16Addr, static, doomed, isC
 	g.effects(f, nfx(), &seq)
 	for k := 0; k < nkids; k++ {
 		inv := &model.C16Inv{}
-		tk := pick(r, 66, 20, 14)
+		reSD := 0 // 1: repeated SELFDESTRUCT inside a failing subtree, 2: undone by this frame's require-fail
+		tk := pick(r, 60, 26, 14)
 		if tk == 2 && ncreate == 0 {
 			tk = 0
 		}
@@ -217,6 +261,33 @@ func (g *gen) frame(depth int, host int, ctx *model.C16Addr, static, doomed, isC
 			chost := r.Intn(len(g.p.Hosts))
 			switch inv.Kind {
 			case model.C16KCall:
+				if len(g.sdHosts) > 0 && !static {
+					// an account that self-destructs (again) after a node of this transaction already did. The
+					// later SELFDESTRUCT is preferably undone - inside a failing subtree, or by a parent that
+					// reverts BECAUSE the child succeeded - while the earlier one lies outside what is undone:
+					// its mark must be left alone
+					var cand []int
+					for _, sd := range g.sdHosts[:sdBefore] {
+						if !sd.doomed {
+							cand = append(cand, sd.host)
+						}
+					}
+					switch {
+					case len(cand) > 0 && f.Doomed && r.Intn(2) == 0:
+						chost, g.forceSD, reSD = cand[r.Intn(len(cand))], true, 1
+					case len(cand) > 0 && !f.Doomed && r.Intn(5) == 0:
+						chost, g.forceSD, reSD = cand[r.Intn(len(cand))], true, 2
+					case r.Intn(5) == 0:
+						chost, g.forceSD = g.sdHosts[r.Intn(len(g.sdHosts))].host, r.Intn(2) == 0
+						if !g.forceSD {
+							// value sent to an account that (probably) has self-destructed already: burnt with it
+							g.forceOK = r.Intn(3) > 0
+							if inv.Value == 0 {
+								inv.Value = 1 + uint64(r.Intn(40))
+							}
+						}
+					}
+				}
 				h := g.p.Hosts[chost]
 				cctx = &h
 			case model.C16KStatic:
@@ -237,27 +308,55 @@ func (g *gen) frame(depth int, host int, ctx *model.C16Addr, static, doomed, isC
 					g.create2s = append(g.create2s, c2ref{child, *ctx, inv.Salt})
 				}
 			}
-			g.gasFor(inv, child.Doomed, false)
+			g.gasFor(inv, child.Doomed && reSD == 0, false)
 			if isC {
 				inv.GasMode = model.C16GAll // CREATE takes no gas operand
 			}
-		case 1: // a literal address without code of ours: plain value transfer / account creation / precompile
+		case 1: // a literal target: native contract / code-less account of every kind / a host without selector / self
 			inv.Tgt = model.C16TgtPlain
-			inv.Kind = pick(r, 70, 10, 10, 10)
-			inv.Addr = g.plains[r.Intn(len(g.plains))]
+			inv.Kind = pick(r, 52, 16, 16, 16)
 			inv.Value = g.value()
-			if inv.Kind == model.C16KCall && r.Intn(2) == 0 && inv.Value == 0 {
+			if inv.Kind <= model.C16KCallCode && r.Intn(2) == 0 && inv.Value == 0 {
 				inv.Value = 1 + uint64(r.Intn(40))
 			}
-			// a code-less callee succeeds with any gas; the identity precompile needs some
-			g.gasFor(inv, f.Doomed || (inv.Addr != model.C16Identity && r.Intn(2) == 0), false)
-			if inv.Addr == model.C16Identity && !f.Doomed && r.Intn(3) == 0 {
-				// a precompile "frame" that fails for lack of gas (15 needed): with value 0 the callee gets
-				// exactly this, with value the 2300 stipend on top
-				inv.GasMode, inv.GasConst = model.C16GConst, []uint64{1, 7, 14}[r.Intn(3)]
+			outRec := 0
+			switch pick(r, 36, 50, 6, 8) {
+			case 0: // native contract: succeeds iff the gas covers the price and the input is accepted
+				n := 1 + r.Intn(8)
+				inv.Addr = model.C16PrecompileAddr(n)
+				inv.Input, inv.InSize = precompileInput(r, n)
+				switch {
+				case f.Doomed:
+					g.gasFor(inv, true, false)
+				case r.Intn(5) < 2:
+					g.gasFor(inv, false, false)
+				default:
+					// an explicit allotment is handed on as it is (plus the stipend of a value-bearing call)
+					inv.GasMode, inv.GasConst = model.C16GConst, precompileGasMenu(r, n, inv.Input, inv.InSize)
+				}
+				outRec = 2
+			case 1: // funded EOA, absent accounts, the zero address, a code-less account holding value: succeeds with any gas
+				inv.Addr = g.plains[r.Intn(len(g.plains))]
+				g.gasFor(inv, f.Doomed || r.Intn(2) == 0, false)
+				outRec = 10
+				if !isCreate && r.Intn(10) > 0 {
+					g.plainInv = append(g.plainInv, inv)
+					outRec = 0
+				}
+			case 2: // a host entered without a selector: its dispatcher jumps to 0 and fails with any gas
+				inv.Addr = g.p.Hosts[r.Intn(len(g.p.Hosts))]
+				g.gasFor(inv, true, false)
+				outRec = 10
+			case 3: // the executing account itself: a dispatcher (fails) or, inside init code, no code yet (succeeds)
+				inv.Tgt = model.C16TgtSelf
+				g.gasFor(inv, true, false)
+				outRec = 10
 			}
-			if !isCreate {
-				g.plainInv = append(g.plainInv, inv)
+			if static {
+				outRec *= 4
+			}
+			if outRec > 0 && r.Intn(outRec) == 0 {
+				inv.OutRec, inv.OutSlot = true, outSlotBase+2*uint64(r.Intn(outPairs))
 			}
 		case 2: // the contract a previous create of this frame returned
 			inv.Tgt = model.C16TgtCreated
@@ -267,10 +366,87 @@ func (g *gen) frame(depth int, host int, ctx *model.C16Addr, static, doomed, isC
 			g.gasFor(inv, f.Doomed, false)
 		}
 		g.policy(inv, static)
+		if reSD == 2 {
+			inv.Policy = model.C16PRequireFail
+		}
 		f.Actions = append(f.Actions, model.C16Action{Kind: model.C16AInvoke, Inv: inv})
 		g.effects(f, nfx(), &seq)
 	}
 	return f
+}
+
+// leafCreate: a creation frame without children (its cost does not depend on the gas it gets) that
+// deploys a runtime stub.
+func (g *gen) leafCreate(doomed bool) *model.C16Frame {
+	r := g.r
+	f := &model.C16Frame{ID: g.nextID, Term: model.C16TReturn, Doomed: doomed, Tight: true}
+	g.nextID++
+	g.nodes++
+	seq := 0
+	g.effects(f, pick(r, 20, 40, 30, 10), &seq)
+	f.Stub = &model.C16Stub{Kind: pick(r, 35, 35, 15, 15), Slot: uint64(r.Intn(dataSlots)), Val: 0x900000 + uint64(f.ID), Benef: g.anyAddr(nil)}
+	return f
+}
+
+// calibratedTx: a transaction with ONE creation frame whose gas the harness places at the boundary
+// "code deposit just (not) paid" (see calib.go). Three shapes: the transaction is the creation; the
+// root P creates by CREATE/CREATE2 and the transaction's gas is the knob (the child gets all but 1/64
+// of what P has left); a root X with ample gas enters P by CALL/CALLCODE/DELEGATECALL with an
+// explicit gas constant, which is the knob.
+func (g *gen) calibratedTx(tx *model.C16Tx) {
+	r := g.r
+	g.nodes = 0
+	g.sdHosts = nil
+	tx.Calib = &model.C16Calib{Choice: pick(r, 10, 6, 24, 12, 20, 18, 10)}
+	tx.Gas = calibHi
+	if r.Intn(3) == 0 {
+		tx.Value = uint64(1 + r.Intn(100))
+	}
+	shape := pick(r, 30, 40, 30)
+	if shape == 0 {
+		tx.Create = true
+		tx.Root = g.leafCreate(false)
+		tx.Boundary = tx.Root
+		return
+	}
+	mkP := func(doomed bool) *model.C16Frame {
+		P := &model.C16Frame{ID: g.nextID, Host: r.Intn(len(g.p.Hosts)), Term: []int{model.C16TStop, model.C16TReturn}[r.Intn(2)], Doomed: doomed, Tight: true}
+		g.nextID++
+		g.nodes++
+		seq := 0
+		g.effects(P, pick(r, 40, 40, 20), &seq)
+		child := g.leafCreate(doomed)
+		inv := &model.C16Inv{Kind: model.C16KCreate + r.Intn(2), Tgt: model.C16TgtNode, Node: child, GasMode: model.C16GAll, Policy: model.C16PIgnore, Salt: uint64(r.Intn(3))}
+		if r.Intn(3) == 0 {
+			inv.Value = 1 + uint64(r.Intn(30))
+		}
+		P.Actions = append(P.Actions, model.C16Action{Kind: model.C16AInvoke, Inv: inv})
+		tx.Boundary = child
+		return P
+	}
+	if shape == 1 {
+		tx.Root = mkP(false)
+		return
+	}
+	X := &model.C16Frame{ID: g.nextID, Host: r.Intn(len(g.p.Hosts))}
+	g.nextID++
+	g.nodes++
+	X.Term = pick(r, 60, 25, 15) // STOP, RETURN, REVERT
+	X.Doomed = model.C16TermFails(X.Term)
+	seq := 0
+	g.effects(X, pick(r, 40, 40, 20), &seq)
+	inv := &model.C16Inv{Kind: pick(r, 60, 20, 20), Tgt: model.C16TgtNode, GasMode: model.C16GConst, GasConst: calibHi}
+	inv.Node = mkP(X.Doomed)
+	if inv.Kind <= model.C16KCallCode && r.Intn(3) == 0 {
+		inv.Value = 1 + uint64(r.Intn(30))
+	}
+	inv.Policy = pick(r, 30, 50, 20) // ignore, record, require-ok
+	inv.RecSlot = recSlotBase + uint64(r.Intn(recSlots))
+	X.Actions = append(X.Actions, model.C16Action{Kind: model.C16AInvoke, Inv: inv})
+	g.effects(X, pick(r, 50, 35, 15), &seq)
+	tx.Root = X
+	tx.Calib.Knob = inv
+	tx.Gas = uint64(1) << uint(44+6*r.Intn(4))
 }
 
 type preAcct struct {
@@ -290,15 +466,46 @@ func genProgram(r *rand.Rand) (*model.C16Program, []preAcct) {
 	for i := 0; i < nh; i++ {
 		p.Hosts = append(p.Hosts, hostAddr(i))
 	}
-	g.plains = []model.C16Addr{eoaFunded, eoaAbsentA, eoaAbsentB, model.C16Identity, zeroAddr}
+	g.plains = []model.C16Addr{eoaFunded, eoaAbsentA, eoaAbsentB, zeroAddr, eoaBalOnly}
 	ntx := 1 + pick(r, 35, 30, 22, 13)
 	for i := 0; i < ntx; i++ {
 		tx := &model.C16Tx{}
-		if i > 0 && r.Intn(6) == 0 {
-			j := r.Intn(i)
-			tx.Root, tx.Create, tx.Repeat = p.Txs[j].Root, p.Txs[j].Create, j+1
+		if j := r.Intn(i + 1); i > 0 && r.Intn(6) == 0 && p.Txs[j%i].Calib == nil {
+			// (a transaction with calibrated gas is not run again: its knob may sit in the code)
+			j %= i
+			tx.Root, tx.Direct, tx.Create, tx.Repeat = p.Txs[j].Root, p.Txs[j].Direct, p.Txs[j].Create, j+1
+		} else if r.Intn(9) == 0 {
+			g.calibratedTx(tx)
+			p.Txs = append(p.Txs, tx)
+			continue
+		} else if r.Intn(12) == 0 {
+			// the transaction itself goes to a literal address: the top-level frame has no code of ours
+			inv := &model.C16Inv{Tgt: model.C16TgtPlain, Kind: model.C16KCall}
+			tx.Direct = inv
+			tx.Gas = constGas[r.Intn(len(constGas))] * uint64(1+r.Intn(4))
+			switch pick(r, 70, 24, 6) {
+			case 0:
+				n := 1 + r.Intn(8)
+				inv.Addr = model.C16PrecompileAddr(n)
+				inv.Input, inv.InSize = precompileInput(r, n)
+				if r.Intn(4) == 0 {
+					tx.Gas = uint64(1) << uint(44+6*r.Intn(4))
+				} else {
+					tx.Gas = precompileGasMenu(r, n, inv.Input, inv.InSize)
+				}
+			case 1:
+				inv.Addr = g.plains[r.Intn(len(g.plains))]
+			case 2:
+				inv.Addr = p.Hosts[r.Intn(len(p.Hosts))]
+			}
+			if r.Intn(5) < 3 {
+				tx.Value = uint64(1 + r.Intn(100))
+			}
+			p.Txs = append(p.Txs, tx)
+			continue
 		} else {
 			g.nodes = 0
+			g.sdHosts = nil
 			tx.Create = r.Intn(10) == 0
 			var ctx *model.C16Addr
 			host := r.Intn(len(p.Hosts))
@@ -310,6 +517,15 @@ func genProgram(r *rand.Rand) (*model.C16Program, []preAcct) {
 		}
 		if r.Intn(3) == 0 {
 			tx.Value = uint64(1 + r.Intn(100))
+		}
+		if tx.Direct != nil {
+			// a direct call run again: with the same gas or with another constant
+			tx.Gas = p.Txs[tx.Repeat-1].Gas
+			if r.Intn(2) == 0 {
+				tx.Gas = constGas[r.Intn(len(constGas))] * uint64(1+r.Intn(4))
+			}
+			p.Txs = append(p.Txs, tx)
+			continue
 		}
 		if tx.Root.Doomed && r.Intn(2) == 0 {
 			if r.Intn(2) == 0 {
@@ -325,7 +541,7 @@ func genProgram(r *rand.Rand) (*model.C16Program, []preAcct) {
 	// retarget some plain calls to addresses at which a CREATE2 of the program deploys (before or after
 	// this call runs): pre-funding, calling deployed stubs, calling destroyed stubs
 	for _, inv := range g.plainInv {
-		if len(g.create2s) > 0 && r.Intn(2) == 0 {
+		if len(g.create2s) > 0 && r.Intn(4) > 0 {
 			c := g.create2s[r.Intn(len(g.create2s))]
 			inv.Tgt, inv.Of, inv.OfID, inv.Creator, inv.Salt = model.C16TgtCreate2Of, c.node, c.node.ID, c.creator, c.salt
 			if inv.GasMode == model.C16GConst {
@@ -337,6 +553,13 @@ func genProgram(r *rand.Rand) (*model.C16Program, []preAcct) {
 	var pre []preAcct
 	pre = append(pre, preAcct{Addr: originAddr, Nonce: uint64(r.Intn(3)), Bal: 1000000000000, Host: -1})
 	pre = append(pre, preAcct{Addr: eoaFunded, Nonce: 1, Bal: 500, Host: -1})
+	pre = append(pre, preAcct{Addr: eoaBalOnly, Nonce: 0, Bal: 77, Host: -1})
+	// some native-contract addresses hold value already (sent there by earlier blocks)
+	for n := 1; n <= 8; n++ {
+		if r.Intn(5) == 0 {
+			pre = append(pre, preAcct{Addr: model.C16PrecompileAddr(n), Bal: uint64(1 + r.Intn(50)), Host: -1})
+		}
+	}
 	for i := range p.Hosts {
 		a := preAcct{Addr: p.Hosts[i], Nonce: uint64(r.Intn(2)), Host: i, Storage: map[uint64]uint64{}}
 		if r.Intn(3) > 0 {
